@@ -51,9 +51,9 @@ WIDTHS = [1, 2, 10, 20, 80, 200, 10000]
 def _classes():
     import ctrlrun
     from asyncio_taskpool.pool import SimpleTaskPool, TaskPool
-    SubA, SubB, SubC, SubD = ctrlrun.make_subclasses()
+    SubA, SubB, SubC, SubD, SubE = ctrlrun.make_subclasses()
     return {"TaskPool": TaskPool, "SimpleTaskPool": SimpleTaskPool, "SubA": SubA, "SubB": SubB,
-            "SubC": SubC, "SubD": SubD}
+            "SubC": SubC, "SubD": SubD, "SubE": SubE}
 
 
 def model_table(surf_lines):
@@ -169,7 +169,8 @@ LIT = {"args": ["(1,2)", "()", "([1,2],)", "([1,2],)", "(1,)"], "kwargs": ["{'a'
        "arg_iter": ["[1,2,3]", "[]", "['x']", "[[1,2],[3]]", "[[1,2],[3]]", "[{'k':1}]"],
        "args_iter": ["[(1,2),(3,4)]", "[]", "[(5,)]", "[([1],2)]", "[([1],2)]"],
        "kwargs_iter": ["[{'a':1},{'a':2}]", "[]", "[{'a':[1,2]}]", "[{'a':[1,2]}]"]}
-PATHS = ["ctrlrun.work", "ctrlrun.work2", "ctrlrun.notcoro", "ctrlrun.slow", "ctrlrun.boom"]
+PATHS = ["ctrlrun.work", "ctrlrun.work2", "ctrlrun.notcoro", "ctrlrun.slow", "ctrlrun.boom",
+         "vpkg.sub.mod.work3"]
 
 
 def draw_value(rng, dest, conv):
@@ -225,7 +226,7 @@ def job_c17(clsname, seed, count, replay_calls=None):
     else:
         weights = [3 if c in ("apply", "map", "starmap", "doublestarmap", "start", "cancel", "stop",
                               "pool-size", "hello", "many", "label", "halt", "ratio", "runJob", "maxLoad",
-                              "info", "INFO") else 1 for c in cmds]
+                              "info", "INFO", "scale", "collect", "call-me", "level") else 1 for c in cmds]
         calls = []
         for _ in range(count):
             c = rng.choices(cmds, weights)[0]
@@ -447,13 +448,13 @@ def jobs(pid, tier, seed):
     js = []
     base = seed * 7919 + int(pid[1:]) * 101
     if pid == "C16":
-        for c in ("TaskPool", "SimpleTaskPool", "SubA", "SubB", "SubC", "SubD"):
+        for c in ("TaskPool", "SimpleTaskPool", "SubA", "SubB", "SubC", "SubD", "SubE"):
             for w in WIDTHS:
                 js.append(("prop_ctrl", "job_c16", {"clsname": c, "width": w}))
     elif pid == "C17":
         n, cnt = (16, 40) if tier == "quick" else (96, 120)
         for k in range(n):
-            c = ["TaskPool", "SimpleTaskPool", "SubA", "SubB", "TaskPool", "SubC"][k % 6]
+            c = ["TaskPool", "SimpleTaskPool", "SubA", "SubB", "TaskPool", "SubC", "SubE", "TaskPool"][k % 8]
             js.append(("prop_ctrl", "job_c17", {"clsname": c, "seed": base + k, "count": cnt}))
     elif pid == "C18":
         n, cnt = (16, 60) if tier == "quick" else (96, 200)
